@@ -5,6 +5,7 @@
 #![allow(dead_code)]
 pub mod engine;
 pub mod impostor;
+pub mod interop;
 
 pub const CT_CCS: u8 = 20;
 pub const CT_ALERT: u8 = 21;
